@@ -223,6 +223,18 @@ theorem putOne_all_or (f g : RawIx × Axis → Except Err PosIx) (b : Bool)
   | false => exact Or.inl (h3 rfl)
   | true => exact Or.inr (hQ rfl)
 
+/-- the index arrays of a key are among its (index, axis) pairs -/
+theorem arrayKeys_subset (axes : List Axis) (raw : List RawIx) (x : RawIx × Axis) (hx : x ∈ arrayKeys axes raw) :
+    x ∈ raw.zip axes := by
+  unfold arrayKeys at hx
+  obtain ⟨⟨k, y⟩, hy, rfl⟩ := List.mem_map.mp hx
+  exact (List.of_mem_zip (List.mem_filter.mp hy).1).2
+
+theorem arrayKeys_any_imp (axes : List Axis) (raw : List RawIx) (E : RawIx × Axis → Bool)
+    (h : (arrayKeys axes raw).any E = true) : (raw.zip axes).any E = true := by
+  obtain ⟨x, hx, hE⟩ := List.any_eq_true.mp h
+  exact List.any_eq_true.mpr ⟨x, arrayKeys_subset axes raw x hx, hE⟩
+
 theorem putIndices_of_resolve (f : RawIx × Axis → Except Err PosIx)
     (hf : ∀ r ax, f (r, ax) = resolveRaw r ax.size)
     (axes : List Axis) (raw : List RawIx) (pix : List PosIx)
@@ -231,7 +243,7 @@ theorem putIndices_of_resolve (f : RawIx × Axis → Except Err PosIx)
       (pix' = pix ∨ 0 ∈ outerShape pix) := by
   unfold putIndices
   simp only []
-  generalize hb : List.any (raw.zip axes) _ = b
+  generalize hb : List.any (arrayKeys axes raw) _ = b
   refine putOne_all_or f _ b hf ?_ ?_ ?_ ?_ _ pix h _ ?_
   · intro _ _; rfl
   · intro _ _; rfl
@@ -239,7 +251,7 @@ theorem putIndices_of_resolve (f : RawIx × Axis → Except Err PosIx)
   · intro _ _; rfl
   · intro hbt
     rw [hbt] at hb
-    refine anyEmpty_zero_mem f _ hf ?_ ?_ ?_ ?_ _ pix h hb
+    refine anyEmpty_zero_mem f _ hf ?_ ?_ ?_ ?_ _ pix h (arrayKeys_any_imp axes raw _ hb)
     · intro _ _; rfl
     · intro _ _; rfl
     · intro s e st ax ps hps
